@@ -161,8 +161,10 @@ func (l *LatencyMetrics) Add(latency time.Duration) {
 	if l.Total += latency; latency > l.Max {
 		l.Max = latency
 	}
-	if latency < l.Min || !l.seen {
-		// A zero Min is a legitimate observation, not "unset".
+	if latency < l.Min || (!l.seen && l.Min == 0) {
+		// A zero Min is a legitimate observation, not "unset", once a
+		// latency has been added; a Min that was filled in otherwise (a
+		// decoded report) stands.
 		l.Min = latency
 	}
 	l.seen = true
